@@ -59,6 +59,35 @@ def showTopo : TopoRes → String
 
 def noImports (w : Wiring) : Wiring := { w with imports := [] }
 
+/-- explicit instance imports whose type is a named interface: `(import name, interface id)` -/
+def ifaceImports (g : GraphVal) : List (Str × Str) :=
+  g.nodes.filterMap fun n =>
+    match n.kind, n.ty.iface with
+    | .import nm, some i => if n.ty.kind = .instance ∧ nm ≠ i then some (nm, i) else none
+    | _, _ => none
+
+def mergedImports (g : GraphVal) : String :=
+  ", ".intercalate ((ifaceImports g).map fun (n, i) => s!"import `{showStr n}` : interface `{showStr i}`")
+
+/-- the semver track of an interface id (the id itself when it has none) -/
+def trackRep (i : Str) : Str := match altKey i with | some (k, _) => k | none => i
+
+def collapseTerm (m : List (Str × Str)) : Term → Term
+  | .imp n => .imp (trackRep ((amGet m n).getD n))
+  | .aliasOf t n => .aliasOf (collapseTerm m t) n
+  | .exported n t => .exported n (collapseTerm m t)
+  | t => t
+
+/-- identify every explicit import of a named interface with the import of that interface -/
+def collapseIface (g : GraphVal) (w : Wiring) : Wiring :=
+  let m := ifaceImports g
+  let c := collapseTerm m
+  { w with
+    insts := w.insts.map fun i => { comp := c i.comp, args := i.args.map fun (n, k, t) => (n, k, c t) },
+    aliases := w.aliases.map fun (t, k, n) => (c t, k, n),
+    exports := w.exports.map fun (n, k, t) => (n, k, c t),
+    names := w.names.map fun (k, t, n) => (k, c t, n) }
+
 def judgeEnc (define : Bool) (g : GraphVal) (topo : Except Nat (List Nat)) (r : RealRes) : String :=
   let o : Opts := { define := define }
   -- SPEC first
@@ -68,7 +97,15 @@ def judgeEnc (define : Bool) (g : GraphVal) (topo : Except Nat (List Nat)) (r : 
       let others := ord.filter fun id => !isImportNode g id
       let sw := normW (specWiring g define others)
       let rw := normW w
-      if sw != rw then some ("wiring differs from the graph: " ++ diffWiring rw sw "impl" "spec") else none
+      if sw != rw then
+        -- recognise the known shape "explicit import of a named interface realised by the
+        -- import of that interface" so that it can be told apart from any other mis-wiring
+        let cw := normW (collapseIface g w)
+        let cs := normW (collapseIface g (specWiring g define others))
+        if cw == cs then
+          some ("KF-explicit-interface-import-merged: " ++ mergedImports g ++ " :: " ++ diffWiring rw sw "impl" "spec")
+        else some ("wiring differs from the graph: " ++ diffWiring rw sw "impl" "spec")
+      else none
     | .ok _, .error n => some s!"encoded although the toposort reports a cycle at {n}"
     | _, _ => none
   match spec with
